@@ -534,6 +534,20 @@ def check_naive_utc(ctx, rule):
             n_sites += 1
             ctx.fail(rule, "datetime.__new__:now()", "`now()` without a time zone is local time", c, key=rule + ":datetime.__new__:now-local")
     ctx.sample({"rule": rule, "local-time sensitive call sites in datetime.__new__": n_sites})
+    # component-wise copies keep the fold bit: a wall time that occurs twice (end of DST) names two instants, fold tells which
+    comp = ("year", "month", "day", "hour", "minute", "second", "microsecond")
+    for c in calls_in(dn):
+        srcs = {}
+        for a in list(c.args) + [k.value for k in c.keywords]:
+            if isinstance(a, ast.Attribute) and a.attr in comp and isinstance(a.value, ast.Name):
+                srcs.setdefault(a.value.id, set()).add(a.attr)
+        for src, got in srcs.items():
+            if len(got) >= 6:
+                f = get_kw(c, "fold")
+                okf = f is not None and norm(f) == f"{src}.fold"
+                ctx.check(okf, rule, f"datetime.__new__:copy-of({src}):fold", f"`{norm(c.func)}(...)` rebuilds the value from the components of `{src}` without fold={src}.fold: a wall time in the "
+                          "repeated hour at the end of daylight saving (fold=1) becomes the first occurrence - the stored instant moves by the DST offset", c, f"fold={src}.fold is passed",
+                          key=rule + ":datetime.__new__:copy-drops-fold")
 
 
 def _instantiate(fragment: str) -> str:
